@@ -29,7 +29,7 @@ def run(tier):
     run.outside = ['larger formulas, chains longer than two', 'the "none" transformation (documented to return the same object)']
     run.assumptions = ['CrossHair models of list/tuple mutation']
     T = 300 if tier == 'quick' else 1200
-    conds = [xengine.Cond('c19', n, T, symbolic=False) for n in tr] + [xengine.Cond('c19', 'h_e_other', T, symbolic=False), xengine.Cond('c19', 'h_e_longchain', T, symbolic=False), xengine.Cond('c19', 'h_e_nx_args', T, symbolic=False)] + \
+    conds = [xengine.Cond('c19', n, T, symbolic=False) for n in tr] + [xengine.Cond('c19', 'h_e_other', T, symbolic=False), xengine.Cond('c19', 'h_e_longchain', T, symbolic=False), xengine.Cond('c19', 'h_e_nx_args', T, symbolic=False), xengine.Cond('c19', 'h_e_planted', T, symbolic=False)] + \
             [xengine.Cond('c19', n, T, symbolic=True) for n in ('h_s_builder_cnf', 'h_s_builder_opb', 'h_s_constraint_row')]
     part = xengine.run_conditions('c19.x', conds)
     from cnfgen.transformations import substitutions as S, shuffle
